@@ -726,9 +726,12 @@ type c33OVar struct {
 	// (only after mapfile).  It is NOT part of the oracle (bash has no such thing); only the
 	// generator reads it, to apply the exclusion of finding C33-mapfile-not-set exactly.
 	noSet bool
+	// nilList mirrors "Variable.List is nil": read -a / mapfile given no field / line.  Generator
+	// only, for the exclusion of finding C33-empty-read-array-one-field.
+	nilList bool
 }
 
-func (v c33OVar) clone() c33OVar { return c33OVar{v.kind, maps33Clone(v.m), v.noSet} }
+func (v c33OVar) clone() c33OVar { return c33OVar{v.kind, maps33Clone(v.m), v.noSet, v.nilList} }
 
 func (v c33OVar) max() int { return c33MapMax(v.m) }
 
@@ -752,6 +755,15 @@ func (v *c33OVar) lit(es []c33Elem, index int) {
 // apply returns false when bash reports an error for the command (the array is left alone).
 func (v *c33OVar) apply(cm c33Cmd, other c33OVar) bool {
 	ok := v.apply0(cm, other)
+	switch cm.kind {
+	case "ra", "mf":
+		v.nilList = len(cm.vals) == 0
+	case "ue":
+	default:
+		if ok {
+			v.nilList = false
+		}
+	}
 	switch cm.kind {
 	case "mf":
 		v.noSet = true
@@ -994,7 +1006,11 @@ func c33ShowVar(vars map[string]expand.Variable, name string) (rep string, kind 
 		for i, v := range vr.List {
 			p[i] = hx(v)
 		}
-		rep = "arr:" + b01(vr.Set) + ":" + hx(vr.Str) + ":" + c33ShowIdx(vr.Indexes) + ":" + strings.Join(p, ";")
+		ls := strings.Join(p, ";")
+		if vr.List == nil {
+			ls = "nil"
+		}
+		rep = "arr:" + b01(vr.Set) + ":" + hx(vr.Str) + ":" + c33ShowIdx(vr.Indexes) + ":" + ls
 		m, wf := c33Abs(vr.List, vr.Indexes)
 		if !wf {
 			return rep, 2, nil, fmt.Sprintf("%s: List %q / Indexes %v break the invariant (unique, non-negative, sorted, as many as elements, nil iff dense)", name, vr.List, vr.Indexes)
@@ -1152,6 +1168,7 @@ func c33GenItems(r *Rand, v c33OVar) []string {
 // c33GenProg generates a command list, tracking bash's semantics with the oracle so that the
 // documented exclusions can be applied exactly (see props/C33.notes.md):
 //   * `unset x` not while x holds what mapfile/readarray just stored  (finding C33-mapfile-not-set)
+//   * no copy `x=("${y[@]}")` from a y that read -a / mapfile left empty  (finding C33-empty-read-array-one-field)
 //   * out-of-range negative `x[i]=v` only at top level     (bash aborts the enclosing function /
 //     subshell on an assignment error; error handling, not array semantics)
 //   * reads only on arrays and unset variables, `${!x[@]}` only on arrays, `${x[-n]}` only in
@@ -1316,6 +1333,9 @@ func c33GenProg(r *Rand, thorough bool) ([]c33Cmd, []string) {
 				y := s.v(map[string]string{"a": "b", "b": "a"}[x])
 				if y.kind == 1 {
 					continue
+				}
+				if y.nilList {
+					continue // finding C33-empty-read-array-one-field: "${y[@]}" yields one empty field
 				}
 				kind := "cp"
 				if r.Bool() {
